@@ -11,9 +11,15 @@ import (
 type chCtx struct {
 	done      chan struct{}
 	cancelled bool
+	deadline  bool // the context has a deadline of its own, far in the future
 }
 
-func (c *chCtx) Deadline() (time.Time, bool) { return time.Time{}, false }
+func (c *chCtx) Deadline() (time.Time, bool) {
+	if c.deadline {
+		return time.Now().Add(24 * time.Hour), true
+	}
+	return time.Time{}, false
+}
 func (c *chCtx) Done() <-chan struct{}        { return c.done }
 func (c *chCtx) Err() error {
 	if c.cancelled {
@@ -58,14 +64,21 @@ func H_C13_channel() {
 	if s == nil {
 		return
 	}
-	// the context: never done, done before the call, or becoming done while Process is waiting
-	ctx := &chCtx{}
+	// the context: never done, done before the call, or becoming done while Process is waiting; with or without a (far)
+	// deadline of its own — the sink's timeout applies all the same
+	ctx := &chCtx{deadline: nondetBool()}
+	if ctx.deadline {
+		ctx.done = make(chan struct{})
+	}
+	willBeDone := false
 	switch symLen(0, 2) {
 	case 1:
+		willBeDone = true
 		ctx.done = make(chan struct{})
 		ctx.cancelled = true
 		close(ctx.done)
 	case 2:
+		willBeDone = true
 		ctx.done = make(chan struct{})
 		go func() {
 			verifYield()
@@ -89,7 +102,7 @@ func H_C13_channel() {
 	}
 	// the sink's timeout elapses at some point of the call, or is far away (an hour or more: it plays no part)
 	// (only with a context that is or becomes done: otherwise waiting for the timeout is the specified behaviour)
-	if ctx.done == nil || nondetBool() {
+	if !willBeDone || nondetBool() {
 		go func() { verifFireTimer() }()
 	} else {
 		verifAssume(d >= 3600000000000)
